@@ -34,6 +34,9 @@ type TReq struct {
 	Unknown bool `json:"unknown"`
 	// Chunked: the request arrives with Transfer-Encoding: chunked (the dump then shows the chunk framing)
 	Chunked bool `json:"chunked,omitempty"`
+	// FailAt > 0: the client goes away after that many bytes of the reply; the request that follows must be
+	// answered as if nothing had happened
+	FailAt int `json:"fail_at,omitempty"`
 }
 
 type Case struct {
@@ -81,6 +84,9 @@ func gen(t *rapid.T) Case {
 		q.Host = rapid.SampledFrom([]string{"", "example.com", "<host>"}).Draw(t, "host")
 		q.Unknown = rapid.IntRange(0, 3).Draw(t, "unknownLen") == 0
 		q.Chunked = rapid.IntRange(0, 3).Draw(t, "chunked") == 0
+		if rapid.IntRange(0, 5).Draw(t, "failWrite") == 0 {
+			q.FailAt = rapid.SampledFrom([]int{1, 7, 20, 60}).Draw(t, "failAt")
+		}
 		c.Reqs = append(c.Reqs, q)
 	}
 	return c
@@ -144,7 +150,7 @@ func check(c Case, st *rig.Stats) error {
 		wantOnion = append(wantOnion, use[i])
 	}
 	for i, q := range c.Reqs {
-		req := rig.Req{Method: "TRACE", Path: q.Path, Host: q.Host, Header: q.Header, Body: q.Body, UnknownLength: q.Unknown, Chunked: q.Chunked}
+		req := rig.Req{Method: "TRACE", Path: q.Path, Host: q.Host, Header: q.Header, Body: q.Body, UnknownLength: q.Unknown, Chunked: q.Chunked, FailWriteAfter: q.FailAt}
 		o := rig.Serve(r, req)
 		where := fmt.Sprintf("request %d TRACE %q (trace option %v, body %v); live %v", i, q.Path, c.Trace, c.TraceBody, m.Live())
 		if o.Panicked {
@@ -188,6 +194,14 @@ func check(c Case, st *rig.Stats) error {
 			}
 			if ct := o.HeaderAtWH.Get("Content-Type"); ct != "message/http" {
 				return rig.Violf("trace-content-type-not-sent", "%s: Content-Type as sent with the status line is %q (final header map has %q)", where, ct, o.Header.Get("Content-Type"))
+			}
+			if q.FailAt > 0 && len(want) > q.FailAt {
+				// the client hung up in the middle: what did get through is the beginning of the dump, nothing else is judged
+				if !strings.HasPrefix(want, string(o.Body)) {
+					return rig.Violf("trace-body", "%s: the client went away after %d bytes; what it got, %q, is not the beginning of the escaped dump %q", where, q.FailAt, o.Body, want)
+				}
+				classes = append(classes, "client-went-away-mid-reply")
+				continue
 			}
 			if string(o.Body) != want {
 				return rig.Violf("trace-body", "%s: body %q, want the escaped dump %q", where, o.Body, want)
